@@ -319,6 +319,12 @@ def check(F, cg, prog, reach, rep, P, audit):
         for bi, bl in enumerate(b.blocks):
             for s in bl["s"]:
                 if s["rv"]["r"] == "agg" and s["rv"]["adt"] == "std::ops::RangeFrom":
+                    # `x[n..]`: the range is an index, not an iterator
+                    dl_ = s["d"]["l"]
+                    as_index = [t for _, t in b.calls() if re.search(r"(Index|IndexMut)<.*>( for .*)?>::(index|index_mut)$|<impl \[T\]>::(get|get_mut)$|<impl str>::get$", callee_name(t)) and
+                                any(op_local(a_) == dl_ or any(k_ == "agg" and x_ is s["rv"] for k_, x_ in origins(b, a_)) for a_ in t["a"][1:] if isinstance(a_, dict) and op_place(a_) is not None)]
+                    if as_index:
+                        continue
                     a = asrc.get(key)
                     rep.check(P + ".loop", "%s: RangeFrom is consumed under a bound" % key, a is not None, b.loc(s["sp"]), a["why"] if a else "",
                               "open-ended range in %s is not listed with its bounded consumer" % key)
